@@ -530,9 +530,9 @@ func main() {
 	run := vk.Start("C07", "fault_enumeration")
 	run.Rule("trials = traffic pattern {full speed, jitter, bursts released when the websocket connection appears} x upgrade fault {none, slowed (traffic flows through the swap), held back and slowed so that the server's first PING is queued on polling when the UPGRADE packet arrives (lead swept 70..130 ms; the trial watches until one ping timeout after that PING was due), refused, stalled (timeouts 1 s), late (held for 1.3 s, i.e. past both upgrade timeouts, then delivered), " +
 		"cut at every 8th byte of the websocket byte stream in each direction}; numbered text and binary messages (every 97th one 33..113 KB) in both directions from before the attempt until after it; " +
-		"distinct = (pattern, fault, client swapped?, connection alive/died)")
+		"distinct = (pattern, fault, client swapped?, connection alive/died). WebTransport part: the same traffic and oracle over polling -> WebTransport upgrades of the Go client against the real server over QUIC on loopback UDP through a datagram relay {clean, 3 ms per datagram, black hole (attempt fails, polling continues), black hole followed by a websocket attempt, dark after the k-th datagram for k over the QUIC handshake, CONNECT, OPEN, probe and UPGRADE}; after a successful swap a second numbered round and fence")
 	run.Assume("order across the swap is not demanded (C02 covers settled transports)", "a cut after the client swapped legitimately kills the connection: then only at-most-once and close-once are required",
-		"polling->WebTransport (QUIC) is not exercised here; the WebTransport framer is covered by C11")
+		"polling->WebTransport runs over real QUIC on loopback UDP through a datagram relay (wt.go): faults are whole-datagram delay, black hole and darkness after the k-th datagram, not byte cuts")
 	patterns := []string{"full", "jitter", "burst"}
 	var trials []trial
 	reps := run.Pick(3, 25)
@@ -561,7 +561,10 @@ func main() {
 		}
 	}
 	// learn the length of the websocket byte streams from a clean slow run
-	probe := runTrial(run, trial{Pattern: "jitter", Fault: "slow"})
+	var probe outcome
+	if os.Getenv("C07_ONLY") != "wt" {
+		probe = runTrial(run, trial{Pattern: "jitter", Fault: "slow"})
+	}
 	run.Note("ws_stream_bytes_probe", probe.wsBytes)
 	stride := int64(run.Pick(24, 8))
 	if run.SubMode != "race" {
@@ -575,6 +578,9 @@ func main() {
 			}
 		}
 	}
+	if os.Getenv("C07_ONLY") == "wt" {
+		trials = nil
+	}
 	sem := make(chan struct{}, 10)
 	var wg sync.WaitGroup
 	for _, t := range trials {
@@ -587,6 +593,9 @@ func main() {
 		}(t)
 	}
 	wg.Wait()
+	if os.Getenv("C07_ONLY") != "ws" {
+		wtTrials(run)
+	}
 	if bin := os.Getenv("VERIF_RACE_BIN"); bin != "" && run.Thorough() && run.SubMode == "" {
 		if s, err := vk.RunSub(bin, "race", run, 20*time.Minute); err != nil {
 			run.Inconclusive("race sub-pass: " + err.Error())
